@@ -71,6 +71,35 @@ class World(object):
         self.parties.append(pt)
         return len(self.parties) - 1
 
+    def witness(self, op):
+        """True when the values present before a randomize / randomize_with already satisfy
+        every enforced constraint (reference evaluator; modes, rangelists and the call's inline
+        block included) and every random scalar is inside its declared type: the state itself
+        is then a solution, so the call must not fail.  Deliberately narrow: no callbacks (they
+        may move constants), no random-size lists (the size is solved too), no faulted calls."""
+        if op.get("op") not in ("randomize", "rw") or op.get("aborted") or op.get("fault"):
+            return False
+        pt = self.parties[op["p"]]
+        P = pt.env.prog
+        for c in P.prog.get("classes", []):
+            if c.get("cb"):
+                return False
+            for f in c.get("fields", []):
+                if f.get("rsz"):
+                    return False
+        try:
+            pre = self.tree(op["p"])
+            if refsem.check_tree(P, pt.cname, pre, pt.modes, pt.rangelists, op.get("inline")) is not None:
+                return False
+            for q in self.rand_paths(op["p"], pre):
+                if refsem._walk(pre, q) not in refsem.path_domain(P, pt.cname, q):
+                    return False
+        except refsem.RefError:
+            return False
+        except (KeyError, IndexError, TypeError):
+            return False
+        return True
+
     def rand_paths(self, p, tree=None):
         pt = self.parties[p]
         tree = tree if tree is not None else self.tree(p)
